@@ -660,6 +660,8 @@ class History:
             if any(d.split('!')[0] != addr.split('!')[0]
                    for d in world['deps'][addr]):
                 self.bump('probe:cross_sheet_dependency')
+        stored_before = {a: canon(model.cells[a].value)
+                         for a in clos if a in model.cells}
         # ---- the call, possibly faulted ----------------------------------
         fault = op.get('fault')
         at = None
@@ -745,6 +747,20 @@ class History:
         if out[0] == 'ok' and want[0] == 'ok' and truth.get(addr) is None \
                 and level.get(addr, 0) > 0:
             pass
+        # ---- oracle 1b: whatever the call wrote into the cells it visited
+        # is "the value computed for that cell" (cells it did not visit keep
+        # what they had)
+        vol = set(world.get('volatile') or ())
+        for a in clos:
+            if a == addr or a not in model.cells or truth.get(a) is None \
+                    or (vol and vol & set(closure(world, a))):
+                continue
+            stored = canon(model.cells[a].value)
+            if stored != stored_before.get(a) and stored != truth[a]:
+                self.fail('dependency-written-wrong', seq, target=target,
+                          dependency=a, stored=stored, fresh_twin=truth[a],
+                          stored_before=stored_before.get(a))
+                return
         # ---- oracle 2: stored value and get -------------------------------
         if out[0] == 'ok' and addr in model.cells:
             stored = canon(model.cells[addr].value)
